@@ -13,8 +13,9 @@ server script (how the peer answers every attempt of that request):
     cut    9 (none), or the number of body units written before the peer closes (early EOF)
     ka     True keep-alive / False "Connection: close" + the peer closes after the reply
     extra  "none" | "stray" | "smuggle"   unsolicited bytes written in the SAME segment as the reply
-    after  "none" | "stray" | "smuggle" | "eof"  done by the peer on the idle connection after the
-           caller's op and BEFORE the next checkout (a later segment)
+    after  "none" | "stray" | "smuggle" | "partial" (a partial status line) | "pre" (the prefix alone) | "eof"
+           done by the peer on the idle connection after the caller's op and BEFORE the next checkout
+    pre    "none" | "crlf" | "crlfcrlf" | "sp" | "lf" | "htab"   bytes put in front of extra / after
     late   number of trailing units (body cells / chunk terminator) withheld until the next request
            arrives on that connection (suspect S4: a body tail still in flight); 0 in the hard class
     shape  "cells" | "http": with "http" the body is  cell, <a 6-unit block that looks like a response
@@ -242,26 +243,39 @@ class World:
             vs._script["never_answers"] = bool(later_units)
         closes = (not nocut) or not sc["ka"] or fr == "close"
         if not closes and not later_units:
-            data += self.unsolicited(sc["extra"], rid, cid, n)
+            data += self.unsolicited(sc["extra"], rid, cid, n, sc.get("pre", "none"))
         self._write(peer, pre + data)
         return vnet.Reply(data=pre + data, close=closes)
 
-    def unsolicited(self, what: str, rid: int, cid: int, n: int) -> bytes:
+    PREFIX = {"none": b"", "crlf": b"\r\n", "crlfcrlf": b"\r\n\r\n", "sp": b" ", "lf": b"\n", "htab": b"\t"}
+
+    def unsolicited(self, what: str, rid: int, cid: int, n: int, pre: str = "none") -> bytes:
+        if what == "none":
+            return b""
+        return self.PREFIX[pre] + self._payload(what, rid, cid, n)
+
+    def _payload(self, what: str, rid: int, cid: int, n: int) -> bytes:
+        if what == "partial":
+            return b"HTTP/1.1 2"
         if what == "stray":
             return cell("s", rid, cid, n, 0) + cell("s", rid, cid, n, 1)
         if what == "smuggle":
             return head("m", rid, cid, n, 200, [f"Content-Length: {2 * UNIT}"]) + cell("m", rid, cid, n, 0) + cell("m", rid, cid, n, 1)
         return b""
 
-    def after(self, what: str, rid: int, cid: int, n: int) -> bool:
+    def after(self, what: str, rid: int, cid: int, n: int, pre: str = "none") -> bool:
         """Peer activity on an idle connection, a later segment before the next checkout."""
         peer = self.net.peers.get(cid)
         if peer is None or peer.closed:
             return False
         if what == "eof":
+            if pre != "none":
+                peer.outbuf += self.PREFIX[pre]
+                self._write(peer, self.PREFIX[pre])
+                peer._flush()
             peer.close()
             return True
-        data = self.unsolicited(what, rid, cid, n)
+        data = self.unsolicited(what, rid, cid, n, pre)
         peer.outbuf += data
         self._write(peer, data)
         peer._flush()
@@ -395,7 +409,7 @@ def run_history(hist: dict) -> dict:
                         held.append(r)
                     del r
                     if sc["after"] != "none" and h["t"] == "r":
-                        if w.after(sc["after"], h["r"], h["s"], h["n"]):
+                        if w.after(sc["after"], h["r"], h["s"], h["n"], sc.get("pre", "none")):
                             events.append({"e": "after", "rid": rid, "what": sc["after"], "s": h["s"]})
             dials = len(w.net.dials)
             held.clear()
